@@ -40,6 +40,8 @@ CONTEXT = {
     "return": ("    return ", ";"), "letunderscore": ("    let _ = ", ";"), "afterstring": ('    let _s = "str"; ', ";"),
     "aftermultibyte": ("    /* \u00e9\u4e16 */ ", ";"), "break": ("    loop { break ", "; }"),
     "tabindent": ("\t\t", ";"),
+    # an already referenced statement (in both styles) with multi-byte text earlier on the same line
+    "afterstmt": ('    warn!(ref = 5; "[ref: 5] pr\u00e9 \u4e16"); ', ";"),
 }
 
 
@@ -162,9 +164,9 @@ def render_case(case, uid, macroset=None):
 class Pack:
     """A generated source file holding many rendered statements."""
 
-    def __init__(self, name):
+    def __init__(self, name, header=True):
         self.name = name
-        self.parts = ["// generated by the verification harness: %s\nuse log::{info, warn, error};\n\npub fn f() {\n    let x = 1; let y = 2;\n" % name]
+        self.parts = ["// generated by the verification harness: %s\nuse log::{info, warn, error};\n\npub fn f() {\n    let x = 1; let y = 2;\n" % name] if header else [""]
         self.items = []
         self.nchars = len(self.parts[0])
 
